@@ -931,6 +931,14 @@ impl MachineState {
                     }
                 }
                 (HeapCellValueTag::Str, s) => {
+                    let (name, arity) = cell_as_atom_cell!(self.heap[s])
+                        .get_name_and_arity();
+
+                    if !(name == atom!(".") && arity == 2) {
+                        self.fail = true;
+                        break;
+                    }
+
                     let cell = self.store(self.deref(self.heap[s+1]));
 
                     if let Some(d) = cell.as_char() {
